@@ -18,6 +18,19 @@ ColK32 == IntCol(K, "i32", FALSE, TRUE)
 ColN   == MkCol(<<78>>, "i16", 0, TRUE, FALSE, FALSE, <<>>, <<>>, <<>>, <<>>)         \* "N" nullable int16
 ColS   == MkCol(<<83>>, "s", 0, TRUE, FALSE, TRUE, <<>>, <<>>, C_Text, <<>>)          \* "S" localizable text, unlimited
 TabA == <<ColK, ColV>>
+CName(k) == <<67, 48 + (k \div 10), 48 + (k % 10)>>
+Cols32 == [k \in 1..32 |->
+             IF k = 1 THEN IntCol(CName(k), "i16", FALSE, TRUE)
+             ELSE CASE k % 4 = 0 -> IntCol(CName(k), "i32", TRUE, FALSE)
+                    [] k % 4 = 1 -> IntCol(CName(k), "i16", k % 8 = 1, FALSE)
+                    [] k % 4 = 2 -> StrCol(CName(k), 8, TRUE, FALSE, <<>>)
+                    [] OTHER     -> MkCol(CName(k), "s", 0, TRUE, FALSE, TRUE, <<>>, <<>>, C_Text, <<>>)]
+Row32(r) == [k \in 1..32 |->
+               IF k = 1 THEN IntV(r)
+               ELSE CASE k % 4 = 0 -> (IF r = 1 THEN IntV(-2147483647) ELSE Null)
+                      [] k % 4 = 1 -> IntV(IF r = 1 THEN 32767 ELSE -32767)
+                      [] k % 4 = 2 -> (IF (k + r) % 3 = 0 THEN Null ELSE StrV(<<97 + (k % 3)>>))
+                      [] OTHER     -> StrV(<<233, 48 + (k % 10)>>)]
 TabB == <<ColS, ColK32, ColN>>                      \* string first, key second, mixed integer widths
 se2 == StrV(<<233, 233>>)
 Dbs == [ d1 |-> [tabs |-> (T :> [cols |-> TabA, rows |-> <<<<IntV(1), sa>>, <<IntV(2), sT>>>>]),
@@ -26,7 +39,13 @@ Dbs == [ d1 |-> [tabs |-> (T :> [cols |-> TabA, rows |-> <<<<IntV(1), sa>>, <<In
                           @@ (U :> [cols |-> TabB, rows |-> <<<<sa, IntV(-2147483647), IntV(-32767)>>, <<se2, IntV(2147483647), Null>>>>]),
                  \* "s"; "_" and "ab0": the ends of the packing alphabet as the odd character of a run
                  streams |-> (<<115>> :> "b0102") @@ (<<95>> :> "b03") @@ (<<97, 98, 48>> :> "b04")],
-         d3 |-> [tabs |-> (T :> [cols |-> TabA, rows |-> <<>>]), streams |-> << >>] ]
+         d3 |-> [tabs |-> (T :> [cols |-> TabA, rows |-> <<>>]), streams |-> << >>],
+         \* a string longer than 64 KiB (the pool's long form) next to a short one, in an unlimited-width column
+         d4 |-> [tabs |-> (T :> [cols |-> <<ColK, StrCol(V, 0, TRUE, FALSE, <<>>)>>,
+                                 rows |-> <<<<IntV(1), StrV([k \in 1..66000 |-> 97 + (k % 7)])>>, <<IntV(2), sa>>>>]),
+                 streams |-> << >>],
+         \* 32 columns in a type mix (i16, i32, string(8), unlimited localizable string; nullable and not)
+         d5 |-> [tabs |-> (T :> [cols |-> Cols32, rows |-> <<Row32(1), Row32(2)>>]), streams |-> << >>] ]
 
 \* ---- layout choices -------------------------------------------------------
 LayoutChoices ==
@@ -82,7 +101,30 @@ BuildImage(db, c) ==
 
 ImgSummary == [InitSummary EXCEPT !.author = StrV(<<233, 120>>), !.word_count = IntV(2), !.arch = StrV(<<120, 54, 52>>), !.languages = [l |-> <<1033>>]]
 
-Images == {[db |-> d, c |-> c] : d \in DOMAIN Dbs, c \in LayoutChoices}
+\* The thorough set: the full product of the choices that meet in the table and pool readers (reference width,
+\* unused entries, duplicate texts, over-counted counts, _Validation, row order) for each database; the code-page
+\* id and the property-set layout, which are read by independent code, cycle along (each value with each
+\* value of every other choice at least once); their own product is taken on d2.
+Mix(w, h, d, o, v, u) == (IF w = 3 THEN 1 ELSE 0) + (CASE h = "none" -> 0 [] h = "empty" -> 1 [] OTHER -> 2) + (IF d THEN 1 ELSE 0)
+                         + 2 * (IF o THEN 1 ELSE 0) + (IF v THEN 1 ELSE 0) + 3 * (IF u THEN 1 ELSE 0)
+CoreChoices ==
+  {[refw |-> w, holes |-> h, dup |-> d, over |-> o, validation |-> v, unsorted |-> u,
+    cpid |-> <<0, 1252, 65001>>[(Mix(w, h, d, o, v, u) % 3) + 1],
+    ps |-> <<"asc", "desc", "gap">>[((Mix(w, h, d, o, v, u) \div 3) % 3) + 1],
+    int1 |-> Mix(w, h, d, o, v, u) % 2 = 1] :
+     w \in {2, 3}, h \in {"none", "empty", "stale"}, d \in BOOLEAN, o \in BOOLEAN, v \in BOOLEAN, u \in BOOLEAN}
+Images == {[db |-> d, c |-> c] : d \in {"d1", "d2", "d3"}, c \in CoreChoices}
+          \cup {[db |-> "d2", c |-> [refw |-> w, holes |-> "none", dup |-> FALSE, over |-> FALSE, validation |-> TRUE, unsorted |-> FALSE,
+                                     cpid |-> p, ps |-> l, int1 |-> i]] : w \in {2, 3}, p \in {0, 1252, 65001}, l \in {"asc", "desc", "gap"}, i \in BOOLEAN}
+Plain == [refw |-> 2, cpid |-> 65001, holes |-> "none", dup |-> FALSE, over |-> FALSE, validation |-> TRUE, unsorted |-> FALSE, int1 |-> FALSE, ps |-> "asc"]
+\* further axes, one at a time: the long form and the 32-column table under both reference widths and pool shapes;
+\* every supported code-page id (d1 holds ASCII text only, so that every page represents it)
+AllCpIds == {0, 932, 936, 949, 950, 951, 1250, 1251, 1252, 1253, 1254, 1255, 1256, 1257, 1258, 10000, 10007, 20127,
+             28591, 28592, 28593, 28594, 28595, 28596, 28597, 28598, 65001}
+ExtraImages ==
+  {[db |-> d, c |-> [Plain EXCEPT !.refw = w, !.holes = h, !.unsorted = u, !.validation = v]] :
+      d \in {"d4", "d5"}, w \in {2, 3}, h \in {"none", "stale"}, u \in BOOLEAN, v \in BOOLEAN}
+  \cup {[db |-> "d1", c |-> [Plain EXCEPT !.cpid = p]] : p \in AllCpIds}
 \* a pairwise-covering subset for the quick tier: every choice value, paired in a round-robin
 QuickImages ==
   {[db |-> "d2", c |-> [refw |-> 2, cpid |-> 1252, holes |-> "none", dup |-> FALSE, over |-> FALSE, validation |-> TRUE, unsorted |-> FALSE, int1 |-> FALSE, ps |-> "asc"]],
@@ -90,7 +132,9 @@ QuickImages ==
    [db |-> "d2", c |-> [refw |-> 2, cpid |-> 0, holes |-> "stale", dup |-> TRUE, over |-> FALSE, validation |-> FALSE, unsorted |-> FALSE, int1 |-> FALSE, ps |-> "gap"]],
    [db |-> "d1", c |-> [refw |-> 3, cpid |-> 1252, holes |-> "stale", dup |-> FALSE, over |-> TRUE, validation |-> FALSE, unsorted |-> TRUE, int1 |-> TRUE, ps |-> "asc"]],
    [db |-> "d1", c |-> [refw |-> 2, cpid |-> 65001, holes |-> "empty", dup |-> FALSE, over |-> FALSE, validation |-> TRUE, unsorted |-> TRUE, int1 |-> FALSE, ps |-> "gap"]],
-   [db |-> "d3", c |-> [refw |-> 2, cpid |-> 0, holes |-> "none", dup |-> FALSE, over |-> FALSE, validation |-> FALSE, unsorted |-> FALSE, int1 |-> TRUE, ps |-> "desc"]]}
+   [db |-> "d3", c |-> [refw |-> 2, cpid |-> 0, holes |-> "none", dup |-> FALSE, over |-> FALSE, validation |-> FALSE, unsorted |-> FALSE, int1 |-> TRUE, ps |-> "desc"]],
+   [db |-> "d5", c |-> [refw |-> 3, cpid |-> 1252, holes |-> "empty", dup |-> FALSE, over |-> FALSE, validation |-> TRUE, unsorted |-> TRUE, int1 |-> FALSE, ps |-> "asc"]],
+   [db |-> "d1", c |-> [Plain EXCEPT !.cpid = 932]], [db |-> "d1", c |-> [Plain EXCEPT !.cpid = 28598]]}
 
 ImgJ(i, img) ==
   [db |-> i.db, c |-> i.c, ptype |-> "Installer", cp |-> i.c.cpid, longrefs |-> i.c.refw = 3,
@@ -103,8 +147,12 @@ ImgJ(i, img) ==
    summary |-> ImgSummary, pslayout |-> i.c.ps, int1 |-> i.c.int1,
    streams |-> SetToSeq({[name |-> n, data |-> Dbs[i.db].streams[n]] : n \in DOMAIN Dbs[i.db].streams})]
 
+\* the image an exploration started from: part of the VIEW, or TLC would keep one image per abstract database
+\* (the layout choices do not show in the package state)
+VARIABLE lay
+fview == <<view, lay>>
 FInit ==
-  \E i \in (IF Cfg = "foreignq" THEN QuickImages ELSE Images) :
+  \E i \in (IF Cfg = "foreignq" THEN QuickImages ELSE IF Cfg = "foreignx" THEN ExtraImages ELSE Images) :
     LET img == BuildImage(Dbs[i.db], i.c) IN
     /\ tstream = img.ts /\ pool = NormPool(img.pool)
     /\ schemas = DecodeSchemas(img.ts, img.pool)
@@ -113,6 +161,7 @@ FInit ==
     /\ dpool = [cp |-> cp, e |-> img.pool] /\ dsum = summary
     /\ ustreams = Dbs[i.db].streams /\ sess = "open" /\ ptype = "Installer" /\ ro = TRUE /\ msync = TRUE
     /\ hist = [path |-> <<>>, last |-> [op |-> "OpenImage", args |-> ImgJ(i, img), res |-> "Ok"]]
+    /\ lay = i
 
 FAlphabet ==
   {Ins(T, <<<<IntV(9), sb>>>>), Ins(T, <<<<IntV(2), sa>>>>), Del(T, Eq(K, IntV(1))), Upd(T, <<<<K, IntV(7)>>>>, Eq(K, IntV(2))),
@@ -120,8 +169,8 @@ FAlphabet ==
    E("WriteStream", [name |-> <<110>>, data |-> "b07"]),
    E("SetSummary", [field |-> "comments", value |-> StrV(<<99>>)]),
    E("Flush", [x |-> 0]), E("IntoInner", [x |-> 0]), E("Reopen", [x |-> 0])}
-FNext == \E e \in FAlphabet : Do(e)
-FSpec == FInit /\ [][FNext]_vars
+FNext == (\E e \in FAlphabet : Do(e)) /\ UNCHANGED lay
+FSpec == FInit /\ [][FNext]_<<vars, lay>>
 
 \* what opening the image must report, for the first replayed step of every path
 FEmit == PrintT(<<"EDGE", ToJson([path |-> hist'.path, ev |-> hist'.last, open |-> sess' = "open", clean |-> ~dirty'.fin,
